@@ -23,6 +23,15 @@ Theorem C38_tick_next : forall init a0 pre post,
   if alpha_at a0 pre then [next (latest init pre)] else [].
 Proof. intros. exact (tick_calls pre (mkhst init a0) post). Qed.
 
+(* the same, said for the notification: once NewEpoch(n) has been notified -- whatever the chain did while the
+   handler ran (env: failing epoch duration / transaction height / network map snapshot / container listing
+   requests) -- and no other notification came since, a tick of an alphabet member asks for n + 1 *)
+Theorem C38_tick_follows_notification : forall init a0 pre n env mid post,
+  (forall e, In e mid -> match e with Notif _ _ => False | _ => True end) ->
+  nth (ticks (pre ++ Notif n env :: mid)) (run (mkhst init a0) ((pre ++ Notif n env :: mid) ++ Tick :: post)) [] =
+  if alpha_at a0 (pre ++ Notif n env :: mid) then [next n] else [].
+Proof. intros. rewrite C38_tick_next. rewrite latest_after_notif by assumption. reflexivity. Qed.
+
 (* ... and there is one (possibly empty) answer per tick, nothing else *)
 Theorem C38_calls_only_at_ticks : forall init a0 h,
   length (run (mkhst init a0) h) = ticks h /\ run (mkhst init a0) h = spec init a0 h.
@@ -44,13 +53,15 @@ Example C38_nonvacuous :
   admits [VState; VStruct; VFact 0] (mkareq true 0 true 1 true [true; false]) = true
   /\ admits [VState; VStruct; VFact 0; VFact 1] (mkareq true 0 true 1 true [true; false]) = false
   /\ admits [VFact 0] (mkareq true 1 true 1 true [true]) = false
-  /\ run (mkhst 5 true) [Tick; Notif 9; Tick; SetAlpha false; Tick; Notif 3; SetAlpha true; Tick]%N = [[6]; [10]; []; [4]]%N
+  /\ run (mkhst 5 true) [Tick; Notif 9 0; Tick; SetAlpha false; Tick; Notif 3 (16 + 4096); SetAlpha true; Tick]%N = [[6]; [10]; []; [4]]%N
+  /\ admits [VFact 0] (mkareq true 2 true 1 true [true]) = false
   /\ next 18446744073709551615%N = 0%N.
 Proof. vm_compute. repeat split. Qed.
 
 Print Assumptions C38_admit_implies_all_validators.
 Print Assumptions C38_reference_sound.
 Print Assumptions C38_tick_next.
+Print Assumptions C38_tick_follows_notification.
 Print Assumptions C38_calls_only_at_ticks.
 Print Assumptions C38_next_is_successor.
 Print Assumptions C38_non_alphabet_never.
